@@ -5,6 +5,7 @@ from common import hexs
 PROP = "C19"
 HARNESS = "pb"
 COMPONENT = "pb"
+WRAPS = ("realloc", "vasprintf")      # harness/pb.c: `sproom` makes them fail during one sprintbuf call
 TIE = ["TranslatedPb"]      # Lemmas/TranslatedPb.lean: Model/Printbuf.lean = printbuf.c as translated by tools/extract/c2lean.py
 VARIANT = "asan"
 INT_MAX = 2147483647
@@ -96,6 +97,20 @@ def gen_history(rng, nops):
             if s.size <= s.bpos + n + 1:
                 s.need(s.bpos + n + 1)
             s.bpos += n
+        elif k < 0.84:
+            # sprintbuf while the allocator refuses everything (realloc, vasprintf), right after a small append that leaves
+            # the text terminated: served from the space at hand or refused with the buffer untouched - NUL included
+            # (round-6 seed C19-10: formatting straight into the free space before knowing that the output fits)
+            a = rand_bytes(rng, rng.choice([0, 1, 3]))
+            if s.bpos + len(a) + 1 < s.size:
+                lines.append("app %s" % hexs(a))
+                s.bpos += len(a)
+                room = s.size - s.bpos
+                n = rng.choice([0, 1, max(0, room - 2), max(0, room - 1), room, room + 1, 127, 128, 200, rng.randrange(0, 300)])
+                n = max(0, min(n, 6000 - s.bpos))
+                lines.append("sproom %s" % hexs(rand_bytes(rng, n, nonzero=True)))
+                if n < room and n <= 127:
+                    s.bpos += n
         elif k < 0.88:
             lines.append("reset")
             s.bpos = 0
@@ -107,7 +122,7 @@ def gen_history(rng, nops):
 
 ALPHABET = ["app -", "app 41", "app " + "42" * 30, "app " + "43" * 31, "app " + "44" * 32, "fast " + "45" * 31,
             "fast " + "46" * 33, "set -1 71 1", "set 40 72 2", "set 0 73 64", "set 31 74 1", "spr " + "4b" * 127,
-            "spr " + "4c" * 128, "reset"]
+            "spr " + "4c" * 128, "reset", "sproom " + "4d" * 20, "sproom " + "4e" * 130]
 STARTS = [[], ["app " + "61" * 31], ["set 0 98 32"], ["app " + "63" * 55], ["spr " + "64" * 200, "reset"]]
 
 
